@@ -363,7 +363,18 @@ pub fn run_script(sc: &Script, base: Option<&[u8]>, fault: Option<Fault>) -> Run
         if out.panic.is_some() {
             std::mem::forget(pkg);
         } else if out.all_ok {
-            let r = if sc.into_inner { guarded(move || pkg.into_inner().map(|_| ())) } else { guarded(move || pkg.flush()) };
+            let r = if sc.into_inner {
+                guarded(move || pkg.into_inner().map(|_| ()))
+            } else {
+                guarded(move || {
+                    let r = pkg.flush();
+                    if r.is_err() {
+                        // a caller that retries after a reported failure must not be met with a panic
+                        let _ = pkg.flush();
+                    }
+                    r
+                })
+            };
             match r {
                 Ok(Ok(())) => {}
                 Ok(Err(e)) => {
@@ -376,8 +387,14 @@ pub fn run_script(sc: &Script, base: Option<&[u8]>, fault: Option<Fault>) -> Run
                 }
             }
         } else {
-            // an earlier call failed: dropping must not panic either
-            if let Err(p) = guarded(move || drop(pkg)) {
+            // an earlier call failed: what a caller typically does next - try to save, give up, drop - must not
+            // panic either (no obligation on the results)
+            let r = guarded(move || {
+                let _ = pkg.flush();
+                let _ = pkg.flush();
+                drop(pkg)
+            });
+            if let Err(p) = r {
                 out.panic = Some(p);
             }
         }
